@@ -103,6 +103,8 @@ class DecodeModel:
                     ops.append(("index", n))
                 elif nm == "insert_or_assign":
                     ops.append(("assign", n))
+                elif nm == "try_emplace" and len(n.get("args", [])) == 1:
+                    ops.append(("index", n))  # try_emplace(key) is operator[]: finds the entry or default-constructs it
                 elif nm in ("try_emplace", "emplace", "insert"):
                     ops.append(("insert-if-absent", n))
                 else:
@@ -1017,16 +1019,8 @@ def rule_deliver_release(res, rid, m):
         pushes = [n for n in p.calls("std::vector::push_back")]
         okp = False
         for pb in pushes:
-            v = p.value_of(pb["args"][0], before=pb["id"])
-            d, calls = depends(m.decode, pb["args"][0])
-            # flow-sensitive: last assignment to the pushed local on this path
-            last = None
-            for _, n in p.elems():
-                if n["id"] == pb["id"]:
-                    break
-                if n.get("k") == "call" and n.get("op") == "=" and "obj" in n and canon(n["obj"]) == canon(pb["args"][0]):
-                    last = n
-            if last is not None and SEG + "::getPacket" in facts.called_names(last):
+            v = paths.path_value(p, pb["args"][0], before=pb["id"])
+            if SEG + "::getPacket" in facts.called_names(v):
                 okp = True
         res.check(okp, rid, "decode:deliver-from-entry", pushes[0].get("loc") if pushes else m.decode.loc,
                   "the delivered packet is getPacket() of the current key's entry", "completing path does not deliver getPacket() of the entry")
@@ -1127,14 +1121,9 @@ def rule_output_sources(res, rid, m):
     for p in m.body_paths():
         for pb in p.calls("std::vector::push_back"):
             n += 1
-            last = None
-            for _, nn in p.elems():
-                if nn["id"] == pb["id"]:
-                    break
-                if nn.get("k") == "call" and nn.get("op") == "=" and "obj" in nn and canon(nn["obj"]) == canon(pb["args"][0]):
-                    last = nn
+            last = paths.path_value(p, pb["args"][0], before=pb["id"])
             ok = False
-            why = "pushed value has no assignment on the path"
+            why = "the pushed value is not built on this path"
             if last is not None:
                 names = facts.called_names(last)
                 cons = [c for c in constructions(m.fb, p) if any(x.get("id") == c.site["id"] for x in walk(last))]
